@@ -38,6 +38,7 @@ VALUES = [
     ['npint', 'int16', 7], ['npint', 'uint64', 2 ** 63], ['npfloat', 'float32', 0.5], ['npfloat', 'float16', 1.5],
     ['npfloat', 'longdouble', 1.5], ['npint', 'int8', -3], ['npfloat', 'float64', 2.25],
     ['nparray', 'int32', [[1, 2], [3, 4]]], ['nparray', 'float64', [0.5, 1.5]], ['bytes', [104, 105]],
+    ['nparray', 'int64', 7], ['nparray', 'bool', [True, False]], ['nparray', 'float32', []],     # 0-d, boolean and empty arrays
     ['list', []], ['dict', []],
 ]
 BADVALUES = [['bytes', [255, 254]], ['object'], ['set'], ['complex'], ['list', [['object']]]]
@@ -64,6 +65,8 @@ def rt(v):
         def conv(x, isf):
             if isinstance(x, list):
                 return ['list', [conv(y, isf) for y in x]]
+            if v[1] == 'bool':
+                return ['bool', bool(x)]
             return ['float', float(x).hex()] if isf else ['int', int(x)]
         return conv(v[2], v[1].startswith('float'))
     if k == 'bytes':
